@@ -1,13 +1,11 @@
 package main
 
 import (
-	"bytes"
 	"encoding/json"
 	"fmt"
 	"math/rand"
-	"os"
-	"os/exec"
 	"reflect"
+	"runtime/debug"
 	"strings"
 	"time"
 
@@ -328,21 +326,28 @@ var c07Modes = []string{"node", "text", "mapunmarshal", "parse"}
 
 func runC07(args []string) {
 	fl := parseFlags(args)
-	if fl.str("single", "") != "" {
-		// child mode: one case, one decode mode, result on stdout
-		var c obj
-		d := json.NewDecoder(os.Stdin)
-		d.UseNumber()
-		if err := d.Decode(&c); err != nil {
-			fatal("child: %v", err)
-		}
-		os.Stdout.Write(asciiJSON(c07Decode(c, fl.str("single", ""))))
+	if fl.str("worker", "") != "" {
+		// child mode: one {c, mode} request per line, one event per line. The stack limit is lowered so that
+		// runaway recursion dies in milliseconds (the graphs are tiny: legitimate recursion is shallow).
+		debug.SetMaxStack(64 << 20)
+		serveLines(func(line string) []byte {
+			var req obj
+			d := json.NewDecoder(strings.NewReader(line))
+			d.UseNumber()
+			if err := d.Decode(&req); err != nil {
+				fatal("child: %v", err)
+			}
+			return asciiJSON(c07Decode(asMap(req["c"]), req["mode"].(string)))
+		})
 		return
 	}
+	worker := &lineWorker{args: []string{"c07", "-worker", "1"}}
+	defer worker.stop()
 	tw := newTraceWriter(fl.str("out", ""))
 	defer tw.close()
 	samples := []any{}
 	cyc, merges := 0, 0
+	deaths, abandoned := 0, 0
 	one := func(c obj) {
 		isCyc, _ := c["cyc"].(bool)
 		if isCyc {
@@ -361,31 +366,31 @@ func runC07(args []string) {
 		}
 		for _, mode := range modes {
 			var ev obj
+			if (isCyc || c["child"] == true) && deaths >= 20 {
+				// twenty inputs have already killed or hung the decoder: that is reported; the remaining
+				// child-bound inputs are not worth a process death each
+				abandoned++
+				continue
+			}
 			if isCyc || c["child"] == true {
 				// decode in a child process: a stack overflow kills only the child
-				cmd := exec.Command(os.Args[0], "c07", "-single", mode)
-				cmd.Stdin = bytes.NewReader(asciiJSON(c))
-				var out bytes.Buffer
-				cmd.Stdout = &out
-				cerr := make(chan error, 1)
-				if err := cmd.Start(); err != nil {
-					fatal("child start: %v", err)
-				}
-				go func() { cerr <- cmd.Wait() }()
-				select {
-				case err := <-cerr:
-					if err != nil {
-						ev = obj{"mode": mode, "err": false, "result": obj{"t": "z"}, "indep": true, "timeout": false, "crash": true, "skipped": false, "crashmsg": err.Error()}
-					} else {
-						d := json.NewDecoder(bytes.NewReader(out.Bytes()))
-						d.UseNumber()
-						if e := d.Decode(&ev); e != nil {
-							fatal("child output: %v", e)
-						}
+				blank := obj{"mode": mode, "err": false, "result": obj{"t": "z"}, "indep": true, "timeout": false, "crash": false, "skipped": false}
+				line, status := worker.call(asciiJSON(obj{"c": c, "mode": mode}), 30*time.Second)
+				switch status {
+				case "crash":
+					blank["crash"] = true
+					ev = blank
+					deaths++
+				case "timeout":
+					blank["timeout"] = true
+					ev = blank
+					deaths++
+				default:
+					d := json.NewDecoder(strings.NewReader(line))
+					d.UseNumber()
+					if e := d.Decode(&ev); e != nil {
+						fatal("child output: %v", e)
 					}
-				case <-time.After(30 * time.Second):
-					cmd.Process.Kill()
-					ev = obj{"mode": mode, "err": false, "result": obj{"t": "z"}, "indep": true, "timeout": true, "crash": false, "skipped": false}
 				}
 			} else {
 				ev = c07Decode(c, mode)
@@ -419,7 +424,7 @@ func runC07(args []string) {
 			one(normalize(c))
 		}
 	}
-	writeSummary(fl.str("summary", ""), obj{"events": tw.n, "cyclic_graphs": cyc, "merge_entries": merges, "samples": samples})
+	writeSummary(fl.str("summary", ""), obj{"events": tw.n, "cyclic_graphs": cyc, "merge_entries": merges, "child_deaths": deaths, "abandoned_after_deaths": abandoned, "samples": samples})
 }
 
 // c07RandomCase: a DAG of 6..40 mapping nodes (aliases to lower-numbered
